@@ -9,6 +9,7 @@ import Pangaea.Drv.C17
 import Pangaea.Drv.C05
 import Pangaea.Drv.C09
 import Pangaea.Drv.C12
+import Pangaea.Drv.C18
 
 def dispatch (line : String) : String :=
   let toks := (line.trimAscii.toString.splitOn " ").filter (· ≠ "")
@@ -24,6 +25,7 @@ def dispatch (line : String) : String :=
     | "C05" :: rest => Pangaea.Drv.C05.handle rest
     | "C09" :: rest => Pangaea.Drv.C09.handle rest
     | "C12" :: rest => Pangaea.Drv.C12.handle rest
+    | "C18" :: rest => Pangaea.Drv.C18.handle rest
     | _ => ("bad-op", "bad-op")
   r.1 ++ "\t" ++ r.2
 
